@@ -6,6 +6,7 @@ CONSTANT One = 1
 CONSTANT Deltas <- DeltasInt
 CONSTANT Factors <- FactorsS
 CONSTANT Divisors <- DivInt
+CONSTANT Halves <- HalvesInt
 CONSTANT MaxLen = 0
 INVARIANTS TypeOK ExactlyOnce NewValue
 PROPERTY ChangeNotifies
